@@ -52,4 +52,4 @@ META = dict(
     technique="runtime monitoring: reference-model oracle after every operation + structural invariants + ASan/UBSan",
 )
 
-CFG["rule"] += (" " + "Additions: random bytes are stored around cursor keys; stale aws_last_error()/errno between operations; stage asan_latin1 (single-byte libc locale); stages mt_tsan/mt_rel run 2-8 threads on hash functions and private tables and compare each thread's digest with the same workload run alone.")
+CFG["rule"] += (" " + "Additions: random bytes are stored around cursor keys; stale aws_last_error()/errno between operations; stage asan_latin1 (single-byte libc locale); stages mt_tsan/mt_rel run 2-8 threads on hash functions and private tables and compare each thread's digest with the same workload run alone. In the ignore-case cursor family a third of the key bytes are non-letters (the high half preferred) and the letters A/a/Z/z occur more often.")
